@@ -421,7 +421,9 @@ func IsPanicExit(b *ssa.BasicBlock) bool {
 func Returns(fn *ssa.Function) []*ssa.Return {
 	var out []*ssa.Return
 	for _, b := range fn.Blocks {
-		if len(b.Instrs) == 0 {
+		if len(b.Instrs) == 0 || b == fn.Recover {
+			// the synthetic recover block returns the named results after a
+			// recovered panic; it is not a source-level exit
 			continue
 		}
 		if r, ok := b.Instrs[len(b.Instrs)-1].(*ssa.Return); ok {
